@@ -46,6 +46,7 @@ type C13Sc struct {
 	LatencyNS int64    `json:"latency_ns,omitempty"` // deadline: simulated time per access
 	Repeats   int      `json:"repeats,omitempty"`    // leak: consecutive Run calls
 	FreeSpin  int      `json:"free_spin,omitempty"`  // free: iterations the canceller spins first
+	Resume    bool     `json:"resume,omitempty"`     // after a cancelled Run call Run again (never cancelled) and compare the end
 }
 
 type c13 struct{}
@@ -132,6 +133,23 @@ func (c13) Gen(r *world.Rng, tier string, n int) interface{} {
 		} else {
 			sc.Ticks = append(sc.Ticks, uint64(r.Range(1, 3000)))
 		}
+	}
+	if sc.Prog == "structured" && r.Chance(1, 2) {
+		// cancellation landing exactly around the Step that halts / reaches the breakpoint
+		m := c13Machine(sc)
+		stop := uint64(0)
+		for i := 0; i < 4000; i++ {
+			si := m.StepNoBoundary()
+			_, hit := m.CPU.BreakPoints[m.CPU.PC]
+			if si.Halted || (m.CPU.BreakPoints != nil && hit) {
+				stop = m.Bus.Tick
+				break
+			}
+		}
+		if stop > 4 {
+			sc.Ticks = append(sc.Ticks, stop-4, stop-3, stop-2, stop-1, stop)
+		}
+		sc.Resume = true
 	}
 	return sc
 }
@@ -455,6 +473,57 @@ func c13One(sc *C13Sc, cancelTick uint64, env *Env) *Violation {
 	}
 	if tw.Bus.Mem != m.Bus.Mem || tw.Bus.Hash != m.Bus.Hash {
 		return viol("twin-state", "%s: memory or bus history differs from %d repeated Steps", what, steps)
+	}
+	if sc.Resume && !natural && sc.Prog == "structured" {
+		// the host calls Run again on the cancelled CPU; the program must finish as if never disturbed
+		budget := m.Bus.Tick + 400000
+		m.Hook = func(mm *world.Machine, _ world.Acc) {
+			if mm.Bus.Tick > budget {
+				panic(&c13Sentinel{"budget"})
+			}
+		}
+		var err2 error
+		ranAway := false
+		func() {
+			defer func() {
+				if r := recover(); r != nil {
+					if _, ok := r.(*c13Sentinel); ok {
+						ranAway = true
+						return
+					}
+					panic(r)
+				}
+			}()
+			err2 = m.CPU.Run(context.Background())
+		}()
+		m.Hook = nil
+		if !ranAway {
+			var nat2 error
+			stopped := false
+			for i := 0; i < 200000 && !stopped; i++ {
+				si := tw.StepNoBoundary()
+				if tw.CPU.BreakPoints != nil {
+					if _, hit := tw.CPU.BreakPoints[tw.CPU.PC]; hit {
+						nat2, stopped = z80.ErrBreakPoint, true
+						break
+					}
+				}
+				if si.Halted {
+					stopped = true
+				}
+			}
+			if stopped {
+				if (err2 == nil) != (nat2 == nil) || !errors.Is(err2, nat2) {
+					return viol("resume-after-cancel", "%s: Run called again after the cancelled Run returned %v; repeated Step stops with %s", what, err2, errName(nat2))
+				}
+				if d := world.DiffStates(tw.CPU.States, m.CPU.States, false); d != "" || tw.Bus.Hash != m.Bus.Hash {
+					return viol("resume-after-cancel", "%s: after resuming the cancelled Run the CPU differs from repeated Step:%s (ticks %d vs %d)", what, d, tw.Bus.Tick, m.Bus.Tick)
+				}
+				if sc.By != "pre" {
+					env.Fire("resumed-after-cancel")
+				}
+			}
+		}
 	}
 	if !env.Quiet && sc.By != "pre" { // "pre": the first Step races with the watcher by design; keep the statistics replayable
 		env.Steps += uint64(steps)
